@@ -113,11 +113,18 @@ def pristine(fmt, prec, scen, method):
         from commonroad.common.util import FileFormat
         d = tempfile.mkdtemp(prefix="c15p_")
         sc, pps = spec.build(scen_spec(scen))
-        w = CommonRoadFileWriter(sc, pps, sc.author, sc.affiliation, sc.source, sc.tags, sc.location, decimal_precision=prec,
-                                 file_format=FileFormat.XML if fmt == "xml" else FileFormat.PROTOBUF)
-        fn = os.path.join(d, "p." + fmt)
-        getattr(w, method)(fn, OverwriteExistingFile.ALWAYS)
-        _pristine[key] = mask(fmt, open(fn, "rb").read())
+        # the reference writer is the oracle's own business: the library's process-global decimal precision is put back afterwards, so that the
+        # explored history (and the canonical form of its state) never depends on when a reference content happened to be computed
+        from commonroad.common.writer.file_writer_interface import precision as _glob
+        saved = _glob.decimals
+        try:
+            w = CommonRoadFileWriter(sc, pps, sc.author, sc.affiliation, sc.source, sc.tags, sc.location, decimal_precision=prec,
+                                     file_format=FileFormat.XML if fmt == "xml" else FileFormat.PROTOBUF)
+            fn = os.path.join(d, "p." + fmt)
+            getattr(w, method)(fn, OverwriteExistingFile.ALWAYS)
+            _pristine[key] = mask(fmt, open(fn, "rb").read())
+        finally:
+            _glob.decimals = saved
         import shutil
         shutil.rmtree(d, ignore_errors=True)
     return _pristine[key]
